@@ -351,17 +351,8 @@ func (w *KVWorld) ReopenDifferential(opName string, post KVObs) (vs []Violation)
 	if err != nil || jsonOf(bf) != jsonOf(post.Backfill) {
 		bad([]string{"C13", "C09"}, "backfill", fmt.Sprintf("Dump backfill differs after close + reopen (err=%v):\nbefore: %s\nafter:  %s", err, jsonOf(post.Backfill), jsonOf(bf)))
 	}
-	// a pending expiry must be armed again by the reopen itself (C14: "including after the bucket is reopened")
-	var minExp uint32
-	for _, r := range d.Docs {
-		if r.HasValue && r.Exp > 0 && (minExp == 0 || r.Exp < minExp) {
-			minExp = r.Exp
-		}
-	}
-	next, has := rosmar.VerifExpiryState(w.H[0])
-	if minExp > 0 && (!has || next == 0 || next > minExp) {
-		bad([]string{"C14"}, "rearm", fmt.Sprintf("earliest stored expiry is %d but after reopen the expiry timer is armed=%v for %d", minExp, has, next))
-	}
+	// (that a pending expiry still fires after the reopen is judged where it can be observed: by the expiry
+	// world's reopen + clock advance and by the crash verifier - not by looking at the timer here)
 	return vs
 }
 
